@@ -37,6 +37,18 @@ MEANS = {
     "BVSlice": {"(_ extract"},
 }
 BOOL_ONLY = {"not", "and", "or", "xor", "=>"}
+# the SMT-LIB function each head symbol is, and the operator each variant denotes (spelled as the d_* names of the algebra)
+HEAD_OP = {"not": "not", "bvnot": "not", "bvneg": "neg", "and": "and", "bvand": "and", "or": "or", "bvor": "or", "xor": "xor", "bvxor": "xor",
+           "=>": "implies", "bvshl": "shl", "bvashr": "ashr", "bvlshr": "lshr", "bvadd": "add", "bvmul": "mul", "bvsdiv": "sdiv", "bvudiv": "udiv",
+           "bvsmod": "smod", "bvsrem": "srem", "bvurem": "urem", "bvsub": "sub", "concat": "concat", "bvugt": "ugt", "bvsgt": "sgt", "bvuge": "uge",
+           "bvsge": "sge", "=": "eq", "ite": "ite", "(_ zero_extend": "zext", "(_ sign_extend": "sext", "(_ extract": "slice", "select": "select",
+           "store": "store", "(as const": "const_array"}
+VAR_OP = {"BVNot": "not", "BVNegate": "neg", "BVEqual": "eq", "BVImplies": "implies", "BVGreater": "ugt", "BVGreaterSigned": "sgt",
+          "BVGreaterEqual": "uge", "BVGreaterEqualSigned": "sge", "BVConcat": "concat", "BVAnd": "and", "BVOr": "or", "BVXor": "xor",
+          "BVShiftLeft": "shl", "BVArithmeticShiftRight": "ashr", "BVShiftRight": "lshr", "BVAdd": "add", "BVMul": "mul", "BVSignedDiv": "sdiv",
+          "BVUnsignedDiv": "udiv", "BVSignedMod": "smod", "BVSignedRem": "srem", "BVUnsignedRem": "urem", "BVSub": "sub", "BVArrayRead": "select",
+          "BVIte": "ite", "ArrayConstant": "const_array", "ArrayEqual": "eq", "ArrayStore": "store", "ArrayIte": "ite", "BVZeroExt": "zext",
+          "BVSignExt": "sext", "BVSlice": "slice"}
 # operands (is-array flag) and typing relation between the 1-bit flags of result r1 and operands o0,o1,o2 (from the node typing rule)
 TYPING = {
     "BVNot": ("b", "o0 == r1"), "BVNegate": ("b", "o0 == r1"),
@@ -92,6 +104,7 @@ def heads_of_arm(body: str):
 
 def build(ub, algebra_text):
     ub.out("use vstd::prelude::*;\nverus! {\n")
+    ub.out("// @@GENERATED algebra\n" + algebra_text)
     ub.out("pub type WidthInt = u32;\n#[derive(PartialEq, Eq, Clone, Copy, Structural)] pub struct ExprRef(pub u32);\n"
            "#[derive(PartialEq, Eq, Clone, Copy, Structural)] pub struct StringRef(pub u32);\n"
            "#[derive(PartialEq, Eq, Clone, Copy, Structural)] pub struct BVLitValue(pub u64);\n")
@@ -123,6 +136,21 @@ def build(ub, algebra_text):
            "pub open spec fn elem(is1: bool) -> Sort { if is1 { Sort::B } else { Sort::V } }\n")
     enum_text, _ = ub.src(NODES).find_item("enum", "Expr")
     variants = enum_variants(enum_text)
+    # extension of a Bool is spelled `(ite c #b0..0X #b0..0Y)`: which variants, which constants (read off the continuation block)
+    mc = re.search(r'if let ((?:Expr::[A-Za-z]+ \{[^}]*\}\s*\|?\s*)+)= expr\s*&&\s*e\.get_type\(ctx\)\.is_bool\(\)\s*\{\s*let zeros = "0"\.repeat\(\*by as usize\);\s*'
+                   r'write!\(out, " #b\{\}([01]+) #b\{\}([01]+)", zeros, zeros\)\?;', ser.body)
+    if not mc:
+        raise AnchorError("serialize_expr: continuation for extensions of Bool not found")
+    bool_ext_variants = re.findall(r"Expr::([A-Za-z]+)", mc.group(1))
+    cx, cy = mc.group(2), mc.group(3)
+    for v in bool_ext_variants:
+        op = VAR_OP.get(v)
+        if op not in ("zext", "sext"):
+            raise AnchorError(f"continuation for extensions of Bool applies to {v}")
+        ub.out(f"// the writer spells {v} of a Bool as (ite c #b0..0{cx} #b0..0{cy}) with `by` zeros  <- continuation block of serialize_expr\n"
+               f"pub proof fn theorem_bool_ext_{v}(c: Den, by: int)\n    requires d_w(c) == 1, by >= 1,\n"
+               f"    ensures d_ite(c, d_lit(by + {len(cx)}, {int(cx, 2)}), d_lit(by + {len(cy)}, {int(cy, 2)})) == d_{op}(c, by),\n"
+               f"{{\n    broadcast use group_bv_algebra;\n}}\n")
     arms = match_arms(ser.body, find_match(ser.body, 0, "expr"))
     seen = set()
     ub.arm_notes = []
@@ -156,7 +184,7 @@ def build(ub, algebra_text):
                     who = mm.group(1)
                     fld = [i for i, (b, t) in enumerate([x for x in binds if x[1].strip() == "ExprRef"]) if b == who]
                     flag = f"o{fld[0]}" if fld else "r1"
-                elif cond == "width == 1" and v == "BVZeroExt":
+                elif cond == "width == 1" and v in ("BVZeroExt", "BVSignExt") and re.search(r"let width = e\.get_bv_type\(ctx\)", a.body):
                     flag = "o0"
                 elif v == "BVSlice" and "lo == 0" in cond:
                     # the no-op branch writes nothing: excluded by typing (full-width slices are never created); the else branch is the extract
@@ -169,12 +197,18 @@ def build(ub, algebra_text):
                     cexpr = flag if pol else f"!{flag}"
             if head is None:
                 raise AnchorError(f"{v}: could not read the head symbol")
-            hkey = "ite-of-bool" if (v == "BVZeroExt" and head == "ite") else head
+            hkey = head
+            if head == "ite" and VAR_OP[v] in ("zext", "sext"):
+                if v not in bool_ext_variants:
+                    raise AnchorError(f"{v} is written with `ite` but the continuation block does not handle it")
+                hkey = "ite-of-bool"     # meaning: theorem_bool_ext_{v}
+            elif head not in HEAD_OP:
+                raise AnchorError(f"{v}: head symbol `{head}` is not in the SMT-LIB table")
+            elif HEAD_OP[head] != VAR_OP[v]:
+                ens.append(f"({cexpr}) ==> false /* {v} denotes d_{VAR_OP[v]} but is written with `{head}`, which is SMT-LIB's d_{HEAD_OP[head]} */")
+                continue
             if hkey not in SIG:
                 raise AnchorError(f"{v}: head symbol `{head}` has no SMT-LIB signature in the table")
-            if hkey not in MEANS[v]:
-                ens.append(f"({cexpr}) ==> false /* {v} is written with `{head}`, which does not denote it */")
-                continue
             args, res = SIG[hkey]
             if len(args) != n:
                 raise AnchorError(f"{v}: head `{head}` takes {len(args)} operands, node has {n}")
